@@ -20,6 +20,7 @@ pub mod c14;
 pub mod c15;
 pub mod c16;
 pub mod c17;
+pub mod c18;
 pub mod c19;
 pub mod smoke;
 
@@ -42,6 +43,7 @@ pub fn run(id: &str, tier: Tier) -> i32 {
         "C15" => c15::run(tier),
         "C16" => c16::run(tier),
         "C17" => c17::run(tier),
+        "C18" => c18::run(tier),
         "C19" => c19::run(tier),
         "SMOKE" => smoke::run(),
         _ => {
@@ -70,6 +72,7 @@ pub fn replay(id: &str, file: &Path) -> i32 {
         "C15" => c15::replay(file),
         "C16" => c16::replay(file),
         "C17" => c17::replay_file(file),
+        "C18" => c18::replay(file),
         "C19" => c19::replay(file),
         _ => {
             eprintln!("harness error: no check for {id}");
